@@ -66,7 +66,8 @@ theorem sg_flush (n : Nat) (c : Streaming) (chs : List (BDoc × List BDoc)) (p :
 theorem sg_add' (n : Nat) (hn : 1 ≤ n) (c : Streaming) (chs : List (BDoc × List BDoc)) (cur : Option (BDoc × List BDoc))
     (d : BDoc) (g : SG n c chs cur) (hsim : ∀ p, cur = some p → SimDoc p.1 d) :
     (c.add d).2 = .ok ∧ ∃ chs' p', SG n (c.add d).1 chs' (some p') ∧
-      ((chs' = chs ∧ ∃ p, cur = some p ∧ p' = (p.1, p.2 ++ [d])) ∨ (chs' = chs ++ cur.toList ∧ p' = (d, []))) := by
+      ((chs' = chs ∧ ∃ p, cur = some p ∧ p' = (p.1, p.2 ++ [d])) ∨
+       (chs' = chs ++ cur.toList ∧ p' = (d, []) ∧ ∀ q, cur = some q → q.2.length + 1 = n)) := by
   -- adding to a collector `c1` whose pending part is known
   have fresh : ∀ (c1 : Streaming) (chs1 : List (BDoc × List BDoc)), SG n c1 chs1 none →
       (let r := c1.inner.add d
@@ -83,7 +84,7 @@ theorem sg_add' (n : Nat) (hn : 1 ≤ n) (c : Streaming) (chs : List (BDoc × Li
     simp only [hnf, if_false, Bool.not_true, Bool.false_eq_true]
     obtain ⟨k1, k2⟩ := fresh c chs g
     simp only [k1, if_true]
-    exact ⟨trivial, chs, (d, []), k2, Or.inr ⟨by simp, rfl⟩⟩
+    exact ⟨trivial, chs, (d, []), k2, Or.inr ⟨by simp, rfl, by intro q hq; cases hq⟩⟩
   | some p =>
     obtain ⟨hh, hc, hle⟩ := g.pend
     by_cases hfull : c.count ≥ c.maxSamples
@@ -92,7 +93,9 @@ theorem sg_add' (n : Nat) (hn : 1 ≤ n) (c : Streaming) (chs : List (BDoc × Li
       simp only [f1, Bool.not_true, Bool.false_eq_true, if_false]
       obtain ⟨k1, k2⟩ := fresh (c.flush).1 (chs ++ [p]) f2
       simp only [k1, if_true]
-      exact ⟨trivial, chs ++ [p], (d, []), k2, Or.inr ⟨by simp, rfl⟩⟩
+      exact ⟨trivial, chs ++ [p], (d, []), k2, Or.inr ⟨by simp, rfl, by
+        intro q hq; cases hq
+        have := g.maxS; omega⟩⟩
     · simp only [hfull, if_false, Bool.not_true, Bool.false_eq_true]
       have hroom : p.2.length + 1 + 1 ≤ n := by rw [g.maxS] at hfull; omega
       obtain ⟨a1, a2⟩ := holds_step n p.1 p.2 c.inner d hh (by omega) (hsim p rfl)
@@ -105,7 +108,7 @@ theorem sg_add (n : Nat) (hn : 1 ≤ n) (c : Streaming) (chs : List (BDoc × Lis
     (c.add d).2 = .ok ∧ ∃ chs' cur', SG n (c.add d).1 chs' cur' ∧ allDocs chs' cur' = allDocs chs cur ++ [d] := by
   obtain ⟨hok, chs', p', g', hcase⟩ := sg_add' n hn c chs cur d g hsim
   refine ⟨hok, chs', some p', g', ?_⟩
-  rcases hcase with ⟨rfl, p, rfl, rfl⟩ | ⟨rfl, rfl⟩
+  rcases hcase with ⟨rfl, p, rfl, rfl⟩ | ⟨rfl, rfl, _⟩
   · simp [allDocs, chunkDocs]
   · cases cur <;> simp [allDocs, chunkDocs]
 
